@@ -33,17 +33,18 @@ const tsBase = uint64(1700000000000)
 
 // physical configuration of one layout
 type LayoutCfg struct {
-	Name    string `json:"name"`
-	Every   int    `json:"every"`   // flush after every k events (0 = one flush at the end)
-	Rotate  int    `json:"rotate"`  // rotate after every r flushes (0 = never)
-	Final   bool   `json:"final"`   // rotate after the last flush (false: the last segment stays open)
-	Card    int    `json:"card"`    // dictionary cardinality limit (0 = default 501)
-	PQS     bool   `json:"pqs"`     // persistent queries enabled and the battery registered before ingest
-	Aggs    bool   `json:"aggs"`    // agile-tree aggregations enabled
-	Procs   int    `json:"procs"`   // GOMAXPROCS (0 = default)
-	Perm    []int  `json:"perm"`    // ingest order (indices into the event list)
-	Trace   bool   `json:"trace"`   // read from the server's log how each query was served (raw search / pqs)
-	Windows bool   `json:"windows"` // record, after every written record, what getLastRecord() returns per column
+	Name       string `json:"name"`
+	Every      int    `json:"every"`       // flush after every k events (0 = one flush at the end)
+	Rotate     int    `json:"rotate"`      // rotate after every r flushes (0 = never)
+	Final      bool   `json:"final"`       // rotate after the last flush (false: the last segment stays open)
+	Card       int    `json:"card"`        // dictionary cardinality limit (0 = default 501)
+	PQS        bool   `json:"pqs"`         // persistent queries enabled and the battery registered before ingest
+	Aggs       bool   `json:"aggs"`        // agile-tree aggregations enabled
+	Procs      int    `json:"procs"`       // GOMAXPROCS (0 = default)
+	Perm       []int  `json:"perm"`        // ingest order (indices into the event list)
+	Trace      bool   `json:"trace"`       // read from the server's log how each query was served (raw search / pqs)
+	DumpRanges string `json:"dump_ranges"` // after ingest: the range micro index of this column in every block of the open segment
+	Windows    bool   `json:"windows"`     // record, after every written record, what getLastRecord() returns per column
 }
 
 type Script struct {
@@ -98,11 +99,12 @@ type WinObs struct {
 var idRe = regexp.MustCompile(`"id":(\d+)`)
 
 type WorkerOut struct {
-	Windows  []WinObs `json:"windows,omitempty"`
-	Obs      []Obs    `json:"obs"`
-	Flushes  int      `json:"flushes"`
-	Rotates  int      `json:"rotates"`
-	Ingested int      `json:"ingested"`
+	Ranges   []writer.VerifC03BlockRange `json:"ranges,omitempty"`
+	Windows  []WinObs                    `json:"windows,omitempty"`
+	Obs      []Obs                       `json:"obs"`
+	Flushes  int                         `json:"flushes"`
+	Rotates  int                         `json:"rotates"`
+	Ingested int                         `json:"ingested"`
 }
 
 func initNode(dir string, cfg LayoutCfg) error {
@@ -344,6 +346,9 @@ func workerMain(dir, scriptPath, outPath string) {
 	if sc.Cfg.Final {
 		writer.ForceRotateSegmentsForTest()
 		out.Rotates++
+	}
+	if sc.Cfg.DumpRanges != "" {
+		out.Ranges = writer.VerifC03UnrotatedRanges(sc.Cfg.DumpRanges)
 	}
 	for _, q := range sc.Queries {
 		out.Obs = append(out.Obs, runQuery(sc.Idx, q))
